@@ -6,13 +6,42 @@ VERIF = os.path.dirname(HERE)
 sys.path.insert(0, HERE); sys.path.insert(0, VERIF)
 
 ALL = ["C%02d" % i for i in range(1, 21)]
+
+NOTE_COMMON = "Trusted: Coq 8.16.1 kernel (vm_compute inside some proofs; no native_compute); hand-written executable model validated on every run by the differential correspondence check against the Go code built from /repo's working tree; extraction with ExtrOcamlBasic only; harness files injected by go build -overlay -tags verif. Full per-run list (Print Assumptions output, modelled-not-verified parts) in the evidence file's trusted_base."
+OVERRIDE = {
+ "C07": dict(technique="Coq proof (conversion bounds, emission rules, restart simulation over the engine model) + restart correspondence (real node stopped and restarted on its data dir vs model prediction)",
+             text="Theorems in coq/Properties/C07.v over the restart model coq/Restart (record stream of the engine model -> load filter -> HandleLoad replay into a fresh engine): deadline conversion bounds for seconds/minutes, emission rules per persistence flag, recovered holds = persisted live holds for the proved sub-language, refutations for the defects found. Tie: generated histories run on a real in-process node with real AOF files, the node is restarted in a fresh process on the same directory, the censuses before/after are compared with the model prediction and with the property monitor.", note=NOTE_COMMON),
+ "C08": dict(technique="Coq proof over a byte-exact AOF file model (writer crash shapes, reader) + exhaustive-per-workload truncation correspondence against the real AofFile/LoadAofFiles",
+             text="Theorems in coq/Properties/C08.v: every image the writer can leave after a crash at any byte has the crash shape (cut header, or whole header + n whole records + torn piece, value file a prefix); on the (now repaired) source every crash image and every reader buffer size gives a successful start that delivers a prefix of the written records, and the second restart delivers that prefix followed by what was appended in between; refutation witnesses for the unrepaired variants and for the remaining value-file defect. Which variant is in force is derived from the source text on every run; both variants are proved. Tie: for every generated workload EVERY truncation offset of the append file (all 64 residues + header) x consistent value-file cuts is loaded by the real code and by the extracted model and diffed; prefix monitor on the Go side; replays start a full node on the image.", note=NOTE_COMMON + " OS model: a file is a byte list, a write may be cut at any byte, rename/remove atomic, completed syscalls not reordered; fsync not modelled."),
+ "C09": dict(technique="Coq proof (ring buffer refines log + cursors; follower applied = prefix of leader log for all schedules) + in-package ring correspondence + two-process cut/reconnect scenario",
+             text="Theorems in coq/Properties/C09.v over coq/Repl (ReplicationBufferQueue model and the sync protocol model). Tie: generated push/cursor/search sequences on the real ReplicationBufferQueue vs the extracted model; a real leader and follower process behind a byte-cutting proxy, append files compared record by record.", note=NOTE_COMMON),
+ "C12": dict(technique="Coq proof (invariant over all schedules of the election protocol model; order theorems for CompareAofId; quorum intersection) + correspondence on real ArbiterManager objects with the harness as network",
+             text="Theorems in coq/Properties/C12.v: CompareAofId is a strict total order inside any wrap-around window; DoVote returns the maximum eligible responder for any arrival order; members with a newer log reject; for EVERY schedule (restarts, loss, duplicates, any number of candidates) under the stated guard at most one candidacy ever completes its commit phase; handlers never lower the numbers; three refutation witnesses (two winners without restart, after restart, proposal number lowered) replayed on the real code and recorded as known findings. Tie: the same generated delivery orders run on 3-5 real ArbiterManager objects (real handlers, DoVote/DoProposal/DoCommit, Save/Load) and on the extracted model, comparing every reply code and per-member state after every action.", note=NOTE_COMMON + " protobuf/TCP transport and online/offline detection are not modelled."),
+ "C13": dict(technique="Coq proof (no-panic theorems for the value-operation layer, binary dispatch and text converters, panics as values) + whole-server crash search in child processes",
+             text="Theorems in coq/Properties/C13.v and C15_data.v: on the repaired semantics no frame / argument list makes the modelled layers panic (refutations for the unrepaired variants selected by source-derived switches). Tie: generated and mutated byte streams in random splits against a REAL server process (no recover()), second-connection liveness probe, crash signature = top slock function of the panic stack, bisect + shrink.", note=NOTE_COMMON + " admin, subscribe, CALL handlers other than decode, KEYS/SCAN are fuzzed only."),
+ "C14": dict(technique="Translator go2coq regenerates every codec definition from the source on each run + Coq round-trip / README / inlined-decoder theorems over the generated definitions + differential check of the generated definitions; text parser model with chunking-independence theorem",
+             text="coq/Properties/C14.v: for 18 command/result types decode(encode m) = m under wf, encode(decode b) = b on every defined byte, README byte offsets for LOCK/UNLOCK, the server's hand-inlined decoder/encoder agree with the protocol package, variable-length parts, every result code has a text rendering — all stated over coq/Gen/GenCodecs.v / GenConsts.v which the translator rewrites from /repo on every run (unsupported syntax becomes a marker that stops the proofs). coq/Properties/C14_text.v: the incremental text parser returns the original argument list for EVERY chunking of BuildRequest/BuildResponse output, key/id normalisation, COUNT/RCOUNT conventions, rendering. The generated definitions and the text model are additionally diffed against the real Go functions on tens of thousands of inputs per run.", note=NOTE_COMMON + " Translator gen/go2coq (Go stdlib go/parser) is trusted for faithfulness of the shallow transcription and validated by the differential run."),
+ "C16": dict(technique="Coq proof over a directory/file-system-mutation model of compaction + crash-point correspondence (directory snapshot after every rename/remove of the real compaction)",
+             text="Theorems in coq/Properties/C16.v: what compaction writes and a later start reads back is exactly the kept records in order with their values; compaction preserves the replay result for any replay function insensitive to the records HasLock rejects; refutation witnesses for a crash between removing the inputs and renaming rewrite.aof.tmp and between the two renames (known findings, replayed by starting a node on the image). Tie: real workloads + real compaction with a directory snapshot after every file-system mutation, each compared byte for byte with the model's directory after the same mutation prefix; restart monitor on each snapshot.", note=NOTE_COMMON + " Compaction concurrent with appends is not modelled."),
+ "C18": dict(technique="Coq proof over a connection-layer model on top of the engine model + correspondence on real Binary/Text server protocol objects over net.Pipe",
+             text="Theorems in coq/Properties/C18.v (wills executed exactly once, in order, at close; routing of late replies by client id; refutations for the defects found). Tie: generated connection lifetimes on real protocol objects vs the extracted model.", note=NOTE_COMMON),
+ "C19": dict(technique="Coq proof over an abstract per-key admission model using the regenerated client parameter conventions + runtime monitor on histories of the real Go client against a real server over TCP",
+             text="Theorems in coq/Properties/C19.v: for all acquire/release sequences, Semaphore(n)/Flow(n) admit at most n, Lock at most 1, RWLock writer excludes everyone and readers exclude writers, RLock re-enters for its LockId only and needs as many unlocks as locks — over the admission rule transcribed from doLock and the parameters regenerated from client/*.go on every run. Tie: 2..64 goroutines per primitive on 1..8 connections against a real server; a monitor checks the definitely-held intervals of the client-side history against each primitive's rule.", note=NOTE_COMMON + " Request/response matching, timeouts and reconnect logic of client/slock.go are observed, not proved; schedules are the runtime's."),
+ "C20": dict(technique="Coq proof (representation invariant + refinement of the segmented array deque and of the per-key queues to a plain deque / stable priority queue for all operation lists) + differential correspondence on all three Go queue types",
+             text="Theorems in coq/Properties/C20.v: for all constructor parameters and all operation lists over Push/PushLeft/Pop/PopRight/Head/Tail/Len the segmented queue model returns exactly what a plain deque returns (invariant preserved, never panics); ring, priority ring, wait queue and holder queue keep FIFO / stable priority order across compaction and representation switches; refutation witnesses for Shrink, Restructuring and restructuringLong*Queue (known findings, replayed). Tie: a normalising diff proves the three Go queue types textually identical on every run; seeded operation sequences (incl. maintenance operations and holes) run on all three real types and on the extracted model comparing every return value and a full field dump.", note=NOTE_COMMON + " Iteration and maintenance operations (Resize, Rellac, Reset, Restructuring) are modelled and differential-tested but have no refinement lemma yet."),
+}
 checks, na = [], []
 for pid in ALL:
     p = os.path.join(VERIF, "checks", pid + ".py")
     m = None
-    if os.path.exists(p):
-        mod = importlib.import_module("checks." + pid)
-        m = getattr(mod, "MANIFEST", None)
+    import glob
+    has_thm = bool(glob.glob(os.path.join(VERIF, "coq", "Properties", pid + "*.v")))
+    if os.path.exists(p) and has_thm:
+        if pid in OVERRIDE:
+            m = OVERRIDE[pid]
+        else:
+            mod = importlib.import_module("checks." + pid)
+            m = getattr(mod, "MANIFEST", None)
     if not m:
         na.append({"property_id": pid, "reason": "check not built yet (work in progress, see DESIGN.md section 5 for the planned theorem and tie)"})
         continue
